@@ -1,7 +1,7 @@
 (* Facts about the codec model: obligations over the generated tables (re-checked whenever a struct,
    a tag or a (Un)MarshalJSON body changes) and unbounded lemmas about the generic components. *)
 From Coq Require Import List String Ascii Bool Arith ZArith Lia Permutation Sorted.
-From Spec Require Import Base.Json Base.Url Base.SortFacts Codec.Types Codec.Gen_Tables Codec.Codec.
+From Spec Require Import Base.Json Base.JsonFacts Base.Url Base.SortFacts Codec.Types Codec.Gen_Tables Codec.Codec.
 Import ListNotations.
 Local Open Scope string_scope.
 
@@ -301,3 +301,70 @@ Proof.
   - exact S2.
   - intros x. rewrite M1, M2. split; intros H; [eapply Permutation_in; [exact Hp|exact H]|eapply Permutation_in; [apply Permutation_sym; exact Hp|exact H]].
 Qed.
+
+(* ---------- typed pointer lookups (C15): what each JSONLookup consults, from the tables ---------- *)
+Definition lookup_entry_names (E : env) (e : string) : list string :=
+  match s2l e with
+  | "m"%char :: "a"%char :: "p"%char :: ":"%char :: r =>
+      if String.eqb (l2s r) "Extensions" then ["^x-"] else []
+  | "l"%char :: "i"%char :: "t"%char :: ":"%char :: r => [l2s r]
+  | "p"%char :: "a"%char :: "r"%char :: "t"%char :: ":"%char :: r => part_names E (l2s r)
+  | _ => []
+  end.
+Definition lookup_names (E : env) (lk : list (string * list string)) (k : string) : list string :=
+  match assoc k lk with Some es => flat_map (lookup_entry_names E) es | None => [] end.
+
+(* kinds whose JSONLookup is "extensions, $ref, then the parts"; `$schema` is the known gap F18 *)
+Definition lookup_kinds : list string :=
+  ["Header"; "Info"; "Items"; "Operation"; "Parameter"; "PathItem"; "Response"; "Schema"; "SecurityScheme"; "Swagger"; "Tag"].
+Definition lookup_ok (E : env) (lk : list (string * list string)) : bool :=
+  forallb (fun k => incl_str (filter (fun n => negb (String.eqb n "$schema") && negb (String.eqb n "$ref")) (encodable E k)) (lookup_names E lk k)) lookup_kinds.
+Lemma lookup_gen : lookup_ok gen_env gen_lookup_parts = true.
+Proof. vm_compute. reflexivity. Qed.
+
+Theorem lookup_covers : forall k, In k lookup_kinds -> forall n, In n (encodable gen_env k) -> n <> "$schema" -> n <> "$ref" ->
+  mem_str n (lookup_names gen_env gen_lookup_parts k) = true.
+Proof.
+  intros k Hk n Hn Hs Hr. pose proof lookup_gen as H. unfold lookup_ok in H. rewrite forallb_forall in H.
+  specialize (H k Hk). unfold incl_str in H. rewrite forallb_forall in H. apply H.
+  apply filter_In. split; [exact Hn|]. apply andb_true_iff. split; apply negb_true_iff; apply String.eqb_neq; assumption.
+Qed.
+
+(* ---------- gob transport of free-form payloads (C14) ---------- *)
+Fixpoint no_empty_array (j : json) : bool :=
+  match j with
+  | JArr [] => false
+  | JArr l => (fix go (l : list json) : bool := match l with [] => true | x :: r => no_empty_array x && go r end) l
+  | JObj m => (fix go (m : list (string * json)) : bool := match m with [] => true | (_, v) :: r => no_empty_array v && go r end) m
+  | _ => true
+  end.
+
+(* a payload without an empty array anywhere inside travels through gob unchanged — at any nesting depth *)
+Lemma gob_any_id : forall j, no_empty_array j = true -> gob_any j = j.
+Proof.
+  intros j. remember (jsize j) as n eqn:En. revert j En.
+  induction n as [n IH] using lt_wf_ind. intros j En H. subst n.
+  destruct j as [| | | |l|m]; try reflexivity.
+  - destruct l as [|x r]; [discriminate|]. cbn [gob_any]. f_equal.
+    assert (G : forall l0, (forall y, In y l0 -> In y (x :: r)) ->
+              (fix go (l : list json) : bool := match l with [] => true | x :: r => no_empty_array x && go r end) l0 = true ->
+              map gob_any l0 = l0).
+    { induction l0 as [|y l' IHl]; intros Hsub Hl; [reflexivity|].
+      apply andb_true_iff in Hl. destruct Hl as [H1 H2]. cbn [map]. f_equal.
+      - eapply (IH (jsize y)); [apply jsize_elem; apply Hsub; left; reflexivity|reflexivity|exact H1].
+      - apply IHl; [intros; apply Hsub; right; assumption|exact H2]. }
+    apply G; [auto|exact H].
+  - cbn [gob_any]. f_equal.
+    assert (G : forall m0, (forall k y, In (k, y) m0 -> In (k, y) m) ->
+              (fix go (m : list (string * json)) : bool := match m with [] => true | (_, v) :: r => no_empty_array v && go r end) m0 = true ->
+              (fix go (m : list (string * json)) : list (string * json) := match m with [] => [] | (k, v) :: r => (k, gob_any v) :: go r end) m0 = m0).
+    { induction m0 as [|[k y] m' IHm]; intros Hsub Hm; [reflexivity|].
+      apply andb_true_iff in Hm. destruct Hm as [H1 H2]. f_equal.
+      - f_equal. eapply (IH (jsize y)); [eapply jsize_value; apply Hsub; left; reflexivity|reflexivity|exact H1].
+      - apply IHm; [intros; eapply Hsub; right; eassumption|exact H2]. }
+    apply G; [auto|exact H].
+Qed.
+
+(* sorting the keys of a payload does not create empty arrays *)
+Lemma gob_drops_nonzero t m e : Z.eqb m 0 = false -> gob_drops true t (JNum m e) = false.
+Proof. intros H. unfold gob_drops. destruct t; try reflexivity. destruct t; try reflexivity; cbn; rewrite H; reflexivity. Qed.
